@@ -18,7 +18,10 @@ RULE = ('seeded conversations for each of the 2x2 implementation pairs x '
         'bursts of 1..40 sends in either direction (text / JSON / binary incl. '
         'empty and 64 kB) x idle periods of >= 30 heartbeat cycles x '
         'disconnect initiated by either side at a seeded step x heartbeat '
-        'settings {(2,1),(1,1),(0.5,0.25),(25,20)} x (threaded parties) '
+        'settings {(2,1),(1,1),(0.5,0.25),(25,20),(1/8,1),(1/16,2)} x network '
+        'latency per hop {0, <= ping_timeout/64, <= ping_timeout/32} x server '
+        'sends issued by an application task right after the connect event '
+        '(racing with the probe / UPGRADE) x (threaded parties) '
         'seeded random cooperative schedules. distinct = distinct (pair, '
         'transport, heartbeat, step-shape, ender) signatures')
 ASSUMPTIONS = ['order is required under the FIFO schedule for the threaded '
@@ -28,11 +31,12 @@ ASSUMPTIONS = ['order is required under the FIFO schedule for the threaded '
                'cross pairs: the asyncio loop is one task of the thread '
                'scheduler and is interleaved with the threaded party\'s tasks '
                'by the same (fifo or seeded random) policy']
-REQUIRED = ['conversations', 'up_exactly_once', 'down_exactly_once',
+REQUIRED = ['conversations', 'conversations_with_latency',
+            'early_server_sends', 'up_exactly_once', 'down_exactly_once',
             'idle_survived', 'both_sides_one_disconnect']
 SHARD_TIMEOUT = {'quick': 600, 'thorough': 3400}
 
-HB = [(2, 1), (1, 1), (0.5, 0.25), (25, 20)]
+HB = [(2, 1), (1, 1), (0.5, 0.25), (25, 20), (0.125, 1), (0.0625, 2)]
 
 
 def mk(rng, tag, k):
@@ -73,8 +77,35 @@ def run_conv(rec, case):
                         policy='random' if sched_seed else 'fifo',
                         seed=sched_seed, request_timeout=5)
     steps = []
-    desc = 'pair=%s transport=%s pi=%s pt=%s background_handlers=%s sched=%d' \
-        % (pair, transport, pi, pt, async_handlers, sched_seed)
+    # network latency: every request, response and client frame takes a
+    # seeded share of at most ping_timeout/32: a PONG queued behind the
+    # largest backlog the workload builds (~100 packets = 7 POSTs of two hops)
+    # still arrives well inside ping_timeout; with the short-interval settings
+    # the first PINGs then fall INSIDE the connect / upgrade sequence
+    lat_max = min(0.25, rng.choice([0, 0, pt / 64.0, pt / 32.0]))
+    lrng = gen.mkrng('c10lat', case['seed'], case['i'])
+    if lat_max:
+        w.peer.lat = lambda: lrng.choice([0, lat_max / 2.0, lat_max])
+        rec.count('conversations_with_latency')
+    # the server application may send right after the connect event, from a
+    # task of its own (not from inside the handler): these sends race with
+    # the rest of the client's connect sequence (probe, UPGRADE)
+    early = rng.choice([0, 0, 1, 3])
+    early_msgs = []
+    if early:
+        def on_event(ev, sid_, data_):
+            if ev == 'connect' and not early_msgs:
+                calls = []
+                for k in range(early):
+                    i, data, kd = mk(rng, 'E', k)
+                    early_msgs.append((i, data))
+                    calls.append(('send', (sid_, data)))
+                w.sim.app_seq(calls)
+        w.sim.on_event = on_event
+        rec.count('early_server_sends')
+    desc = ('pair=%s transport=%s pi=%s pt=%s background_handlers=%s sched=%d '
+            'latency<=%s early_sends=%d') % (
+        pair, transport, pi, pt, async_handlers, sched_seed, lat_max, early)
 
     def V(key, msg):
         rec.viol(key, msg + ' | ' + desc + ' steps=%r' % (steps[-16:],), case)
@@ -91,12 +122,16 @@ def run_conv(rec, case):
             return
         sid = c.c.sid
         w.quiesce()
+        if lat_max:
+            # frames / requests still in flight (e.g. the UPGRADE frame)
+            w.advance(4 * lat_max)
+            w.quiesce()
         want_tr = 'polling' if transport == 'polling' else 'websocket'
         if c.c.transport() != want_tr or sim.transport_of(sid) != want_tr:
             V('transport-disagreement', 'client says %r, server says %r, '
               'expected %r' % (c.c.transport(), sim.transport_of(sid),
                                want_tr))
-        up, down = [], []
+        up, down = [], list(early_msgs)
         nu = nd = 0
         ender = rng.choice(['client', 'server', 'client', 'server', 'none'])
         nsteps = rng.randint(3, 12)
@@ -151,6 +186,12 @@ def run_conv(rec, case):
         w.quiesce()
         w.advance(pi / 4.0)
         w.quiesce()
+        if lat_max:
+            # let everything in flight arrive: a poll cycle is a few hops,
+            # a burst of 40 needs three POSTs of two hops each
+            for _ in range(6):
+                w.advance(4 * lat_max)
+                w.quiesce()
         # ---- both directions: exactly once, in order, equal
         sgot = [e['data'] for e in sim.events if e['ev'] == 'message']
         cgot = [e['data'] for e in c.events if e['ev'] == 'message']
